@@ -562,7 +562,9 @@ impl Packet {
                                 idx,
                                 idx + 1,
                                 u16
-                            )) + 269;
+                            ))
+                            .checked_add(269)
+                            .ok_or(MessageError::InvalidOptionDelta)?;
                             idx += 2;
                         }
                         15 => {
